@@ -153,6 +153,12 @@ _INT_TYPES = {"int", "unsigned int", "long", "unsigned long", "short", "unsigned
               "unsigned char", "long long", "unsigned long long", "bool", "int8_t"}
 
 
+# (bits, signed)
+INT_WIDTH = {"bool": (1, False), "char": (8, True), "signed char": (8, True), "int8_t": (8, True), "unsigned char": (8, False),
+             "short": (16, True), "unsigned short": (16, False), "int": (32, True), "unsigned int": (32, False),
+             "long": (64, True), "unsigned long": (64, False), "long long": (64, True), "unsigned long long": (64, False)}
+
+
 def is_float_type(t):
     return strip_cvref(t) in _FLOAT
 
@@ -377,8 +383,8 @@ class Evaluator:
             return Str([("strsym", prefix)])
         if t.startswith("std::basic_ostream<"):
             return Obj("std::ostream", {"out": Arr([])})
-        if t.startswith("std::hash<"):
-            return Obj(t, {})
+        if t.startswith("std::hash<") or re.match(r"std::(less|greater|less_equal|greater_equal|equal_to|not_equal_to|integer_sequence|integral_constant)<", t):
+            return Obj(t, {})      # stateless function / tag objects
         if t in _INT_TYPES or t == "unsigned long":
             return ("isym", prefix)
         raise Inconclusive("cannot build a symbolic value of type " + t)
@@ -1117,6 +1123,14 @@ class Evaluator:
                 return int(e["cv"])
             if isinstance(v, bool):
                 return int(v)
+            if isinstance(v, tuple) and v and v[0] in ("isym", "iop", "icast"):
+                # a symbolic integer keeps its mathematical value under a widening conversion that preserves the sign; a
+                # conversion from a signed to an unsigned type (sign extension / modular wrap of negative values) or to a
+                # narrower type (truncation) is kept in the term: bit-mixing code (hashes) depends on it
+                frm = INT_WIDTH.get(strip_cvref(self.F.T(e.get("from", -1)) or ""))
+                tot = INT_WIDTH.get(strip_cvref(to))
+                if frm and tot and ((frm[1] and not tot[1]) or tot[0] < frm[0]):
+                    return ("icast", strip_cvref(to), v, strip_cvref(self.F.T(e["from"])))
             return v
         if ck == "IntegralToBoolean":
             if isinstance(v, int):
@@ -1632,12 +1646,15 @@ class Evaluator:
                 return self.rv(self.eval(args[0], frame))
         if tname.startswith("std::hash<"):
             return Obj(tname, {})
+        if re.match(r"std::(less|greater|less_equal|greater_equal|equal_to|not_equal_to)<", tname):
+            return Obj(tname, {})      # comparison function objects: stateless
         if callee.get("extern") or tname not in self.F.records:
             raise Inconclusive("constructor of external type " + tname)
         return _NOMODEL
 
     MATH = {"sqrt", "cbrt", "exp", "log", "log2", "log10", "pow", "acos", "asin", "atan", "atan2", "cos", "sin", "tan",
-            "abs", "fabs", "sqrtf", "sqrtl", "fmin", "fmax", "hypot", "floor", "ceil"}
+            "abs", "fabs", "sqrtf", "sqrtl", "fmin", "fmax", "hypot", "floor", "ceil", "copysign", "trunc", "round",
+            "exp2", "expm1", "log1p", "sinh", "cosh", "tanh", "asinh", "acosh", "atanh", "erf", "erfc", "tgamma", "lgamma"}
 
     def model_extern(self, f, this_lv, args):
         name = f["name"]
@@ -1656,6 +1673,9 @@ class Evaluator:
         if sn in ("min", "max", "clamp") and base.startswith("std::"):
             vs = [val(i) for i in range(len(args))]
             return ("fn", sn) + tuple(vs)
+        mfo = re.match(r"std::(less|greater|less_equal|greater_equal|equal_to|not_equal_to)<.*>::operator\(\)$", name)
+        if mfo and len(args) == 2:
+            return self.compare({"less": "<", "greater": ">", "less_equal": "<=", "greater_equal": ">=", "equal_to": "==", "not_equal_to": "!="}[mfo.group(1)], val(0), val(1))
         # ---- relational operators of std::array ([array.syn] -> [tab:container.opt]: == is std::equal, < is
         #      std::lexicographical_compare with operator< on the elements; > <= >= are defined from <)
         m = re.match(r"std::operator(==|!=|<=|>=|<|>)$", f.get("qname", ""))
@@ -1987,18 +2007,25 @@ class Evaluator:
                 c = self.apply_callable(args[2], [x])
                 r = b_and(r, c) if sn == "all_of" else (b_or(r, c) if sn == "any_of" else b_and(r, b_not(c)))
             return r
+        def into_acc(acc0, v):
+            # the accumulator has the type of the *initial value*: with an integer literal as the initial value every
+            # partial result is converted back to that integer type (truncated) before the next step
+            if isinstance(acc0, int) and not isinstance(acc0, bool) and not (isinstance(v, int) and not isinstance(v, bool)) \
+                    and not _is_intterm(v) and not _int_choice(v):
+                return ("fn", "trunc", v)
+            return v
         if sn == "accumulate" and len(args) in (3, 4):
-            acc = vals[2]
+            acc = acc0 = vals[2]
             for x in rng:
-                acc = self.apply_callable(args[3], [acc, x]) if len(args) == 4 else self.arith("+", acc, self.load(x))
+                acc = into_acc(acc0, self.apply_callable(args[3], [acc, x]) if len(args) == 4 else self.arith("+", acc, self.load(x)))
             return acc
         if sn == "inner_product" and len(args) == 4:
             src2 = self._from(vals[2], n)
             if src2 is None:
                 return _NOMODEL
-            acc = vals[3]
+            acc = acc0 = vals[3]
             for x, y in zip(rng, src2):
-                acc = self.arith("+", acc, self.arith("*", self.load(x), self.load(y)))
+                acc = into_acc(acc0, self.arith("+", acc, self.arith("*", self.load(x), self.load(y))))
             return acc
         if sn == "copy" and len(args) == 3:
             dst = self._from(vals[2], n)
@@ -2073,7 +2100,7 @@ def _freeze(v):
 
 
 def _is_intterm(x):
-    return isinstance(x, tuple) and x and (x[0] == "iop" or x[0] == "isym" or (x[0] == "fn" and isinstance(x[1], str) and x[1].startswith("hash<")))
+    return isinstance(x, tuple) and x and (x[0] in ("iop", "isym", "icast") or (x[0] == "fn" and isinstance(x[1], str) and x[1].startswith("hash<")))
 
 
 class _Sentinel:
@@ -2177,6 +2204,48 @@ def flatten(v, prefix=""):
             out += flatten(x, "%s[%d]" % (prefix, i))
     else:
         out.append((prefix, v))
+    return out
+
+
+def first_condition(t):
+    """The condition of the first conditional found inside term t (depth first), or None."""
+    if isinstance(t, tuple) and t:
+        if t[0] == "g":
+            return t[1]
+        for x in t[1:]:
+            c = first_condition(x)
+            if c is not None:
+                return c
+    elif isinstance(t, Obj):
+        for x in t.f.values():
+            c = first_condition(x)
+            if c is not None:
+                return c
+    elif isinstance(t, (Arr, Str)):
+        for x in (t.items if isinstance(t, Arr) else t.parts):
+            c = first_condition(x)
+            if c is not None:
+                return c
+    return None
+
+
+def cases(t, limit=64):
+    """Case analysis: [(assumptions, conditional-free term)] over the conditions of every conditional inside t, where
+    assumptions is a list of (condition, truth).  Raises Inconclusive beyond `limit` cases."""
+    out, todo = [], [([], t)]
+    while todo:
+        asm, x = todo.pop()
+        c = first_condition(x)
+        if c is None:
+            out.append((asm, x))
+            continue
+        if len(out) + len(todo) > limit:
+            raise Inconclusive("more than %d cases in a case analysis" % limit)
+        xt, xf = assume(x, c, True), assume(x, c, False)
+        if first_condition(xt) == c or first_condition(xf) == c:
+            raise Inconclusive("a condition could not be resolved by assuming it: %s" % show(c)[:100])
+        todo.append((asm + [(c, True)], xt))
+        todo.append((asm + [(c, False)], xf))
     return out
 
 
